@@ -739,7 +739,7 @@ fn resolve_names_item_decl(ctx: &mut StaticsContext, symbol_table: &SymbolTable,
                 );
                 // each method has its own scope inside the scope of the block
                 let symbol_table = symbol_table.new_scope();
-                resolve_names_func_helper(ctx, &symbol_table, &f.args, &f.body, &f.ret_type);
+                resolve_names_func_helper(ctx, &symbol_table, &f.args, &f.body, &f.ret_type, true);
             }
 
             // In this pass, we also gather the declarations of member functions
@@ -910,7 +910,7 @@ fn resolve_names_function_bodies(
     match &*stmt.kind {
         ItemKind::FuncDef(f) => {
             let symbol_table = symbol_table.new_scope();
-            resolve_names_func_helper(ctx, &symbol_table, &f.args, &f.body, &f.ret_type);
+            resolve_names_func_helper(ctx, &symbol_table, &f.args, &f.body, &f.ret_type, true);
         }
         ItemKind::FuncDecl { .. }
         | ItemKind::InterfaceDef(..)
@@ -931,7 +931,7 @@ fn resolve_names_function_bodies(
 
                 // each method has its own scope inside the scope of the block
                 let symbol_table = symbol_table.new_scope();
-                resolve_names_func_helper(ctx, &symbol_table, &f.args, &f.body, &f.ret_type);
+                resolve_names_func_helper(ctx, &symbol_table, &f.args, &f.body, &f.ret_type, true);
             }
         }
         ItemKind::Stmt(_) => {}
@@ -1069,7 +1069,9 @@ fn resolve_names_expr(ctx: &mut StaticsContext, symbol_table: &SymbolTable, expr
         ExprKind::AnonymousFunction(args, out_ty, body) => {
             report_unsupported_default_values(ctx, args, "an anonymous function");
             let symbol_table = symbol_table.new_scope();
-            resolve_names_func_helper(ctx, &symbol_table, args, body, out_ty);
+            // only a named function can be generic: a type variable in the annotations of an
+            // anonymous function has to be one of the enclosing function
+            resolve_names_func_helper(ctx, &symbol_table, args, body, out_ty, false);
         }
         ExprKind::Tuple(exprs) => {
             for expr in exprs {
@@ -1368,19 +1370,20 @@ fn resolve_names_func_helper(
     args: &[ArgMaybeAnnotated],
     body: &Rc<Expr>,
     ret_type: &Option<Rc<Type>>,
+    introduce_poly: bool, // may the annotations introduce type variables?
 ) {
     resolve_names_default_args(ctx, symbol_table, args);
     for arg in args {
         resolve_names_fn_arg(symbol_table, &arg.name);
         if let Some(ty_annot) = &arg.ty {
-            resolve_names_typ(ctx, symbol_table, ty_annot, true);
+            resolve_names_typ(ctx, symbol_table, ty_annot, introduce_poly);
         }
     }
 
     resolve_names_expr(ctx, symbol_table, body);
 
     if let Some(ty_annot) = ret_type {
-        resolve_names_typ(ctx, symbol_table, ty_annot, true);
+        resolve_names_typ(ctx, symbol_table, ty_annot, introduce_poly);
     }
 }
 
